@@ -179,6 +179,15 @@ static void unew(void) {
   fputc('\n', stdout);
 }
 
+/* uhostunix <bytes> : coap_host_is_unix_domain on an exact-size host */
+static void uhostunix(void) {
+  size_t n;
+  uint8_t *s = exact_tok(vtok[1], &n);
+  coap_str_const_t h = { n, s };
+  printf("unix=%d\n", coap_host_is_unix_domain(&h));
+  free(s);
+}
+
 /* uinto <create_port_host> <dst address text | -> <bytes> : coap_split_uri + coap_uri_into_optlist */
 static void uinto(void) {
   int create = atoi(vtok[1]);
@@ -229,6 +238,7 @@ int main(void) {
     else if (!strcmp(vtok[0], "uspl") && vntok == 4) uspl();
     else if (!strcmp(vtok[0], "uinto") && vntok == 4) uinto();
     else if (!strcmp(vtok[0], "unew") && vntok == 3) unew();
+    else if (!strcmp(vtok[0], "uhostunix") && vntok == 2) uhostunix();
     else puts("ERROR unknown command");
     fflush(stdout);
   }
